@@ -159,3 +159,14 @@ def suites(tier, seed):
                   rule="a consumer with 70 000 unread deliveries is cancelled by the server: after the 70 000 deliveries exactly one terminal message, then disconnected (quick: monitor only; thorough: also diffed against the model)"),
             Suite("sessions", "machine", lambda: gen(tier, seed), monitor=monitor, nontrivial=nontrivial, canon=mg.canon_nondet, candidate_ok=mg.candidate_ok,
                   rule="random sessions biased to consumer lifecycles: consume, deliveries, client cancel (with deliveries racing the CancelOk), server cancel (nowait t/f), channel close by either side, connection close by either side, on 1-6 channels with several consumers each")]
+
+
+# --- suites of neighbouring properties that also decide this one (cross-listed after wave 6) ---------
+_suites_before_wave6 = suites
+
+
+def suites(tier, seed):
+    def borrow(mod, names):
+        m = __import__("props." + mod, fromlist=["x"])
+        return [s_ for s_ in m.suites(tier, seed) if s_.name in names]
+    return borrow("c13", ("listener-matrix", "unheard-returns")) + _suites_before_wave6(tier, seed)
